@@ -333,6 +333,24 @@ def check_coupled(sc):
     finally:
         sys.stdout = so
     model = res["model"]
+    if sc.get("rerun") and not res["truncated"]:
+        # the same host and the same grain-growth model run again after reset() of both (a fresh strength model: it has no reset):
+        # the grain-growth clock starts from zero with the host and equals the host clock after every host step of the second run too
+        model.clearCouplingModels()
+        model.reset()
+        gg.reset()
+        sm = StrengthModel()
+        sm.setDislocationParameters(25e9, 2.86e-10, 0.33)
+        sm.setCoherencyParameters(0.01)
+        sm.setSolidSolutionStrength({"B": 1e8}, 1)
+        bad.clear()
+        so = sys.stdout
+        sys.stdout = io.StringIO()
+        try:
+            res = H.run(sc, callbacks=[watch], model=model, therm=res["therm"], extra_couplings=[sm, gg])
+        finally:
+            sys.stdout = so
+        out.label("both_models_reset_and_run_again")
     if sm.rss is not None:
         ps = np.asarray(sm.precStrength(model), dtype=float)
         if not np.all(np.isfinite(ps)) or np.any(ps < 0):
@@ -399,6 +417,7 @@ def _coupled_case(draw):
         # Zener drag parameters, for all phases or for one of them (strong enough drag pins every boundary in some host steps)
         target = draw(st.sampled_from(["all"] + [p["name"] for p in sc["phases"]]))
         sc["zener"] = {target: [draw(st.sampled_from([1.0, 0.5, 2 / 3])), 10 ** draw(st.floats(-4, 1))]}
+    sc["rerun"] = draw(st.integers(0, 2)) == 0
     return sc
 
 
@@ -419,5 +438,5 @@ def clauses():
         Clause("graingrowth", _grain_case, check_grain, quick=250, thorough=8000, shrink=False,
                rule="generator: grid, log-normal or bimodal grain size distribution, boundary energy/mobility, correction factor alpha in {0.5, 1, 2, 3}, Zener drag {0, 1e2..1e9}, 5-120 steps split over 1-3 solve calls, both iterators, distribution loaded from a function or from data, optionally after an earlier run and reset(); oracle: third moment after every step equals the one the run started from (1), without drag the number of grains before the per-step renormalisation never rises and the recorded mean size never falls below what that renormalisation explains (prev x cbrt(min(1, raw volume))), boundary velocities equal the documented law at the volume-conserving critical radius M2/M1, drag never reverses/accelerates a boundary and freezes the structure when it exceeds every driving pressure; non-trivial: >= 5 steps"),
         Clause("coupled", _coupled_case, check_coupled, quick=60, thorough=1500, shrink=False,
-               rule="generator: toy binary precipitation scenario (1-3 solve calls) with a StrengthModel and a GrainGrowthModel attached from the start; after every host step: strength histories have exactly one entry per host row, grain-growth clock equals host clock (1e-9 rel); non-trivial: >= 30 host steps"),
+               rule="generator: toy binary precipitation scenario (1-3 solve calls) with a StrengthModel and a GrainGrowthModel attached from the start, one case in three followed by reset() of host and grain-growth model and a second coupled run of both; after every host step: strength histories have exactly one entry per host row, grain-growth clock equals host clock (1e-9 rel); non-trivial: >= 30 host steps"),
     ]
